@@ -1,0 +1,40 @@
+//go:build verif
+
+// Verification hooks (add-only, compiled only with -tags verif). They expose the
+// unexported gate functions of this package to the /verif harness without
+// changing them; nothing here is reachable in a normal build.
+
+package egress
+
+import (
+	"context"
+	"net"
+)
+
+// VerifMatchesCarveOut calls Policy.matchesCarveOut.
+func (p Policy) VerifMatchesCarveOut(ip net.IP, port string) bool {
+	return p.matchesCarveOut(ip, port)
+}
+
+// VerifDialControl calls the dialer Control hook of this Service (the
+// syscall-level gate) for the given "ip:port" text and reports whether it lets
+// the connect proceed.
+func (s *Service) VerifDialControl(network, address string) (allowed bool) {
+	return s.dialControl(network, address, nil) == nil
+}
+
+// VerifDialContext returns this Service's dialContext closure over a base dialer
+// supplied by the harness (whose Control hook records the addresses that reach
+// it and delegates to VerifDialControl).
+func (s *Service) VerifDialContext(base *net.Dialer) func(context.Context, string, string) (net.Conn, error) {
+	return s.dialContext(base)
+}
+
+// VerifReservedHeaders lists the keys of the reservedHeaders map.
+func VerifReservedHeaders() []string {
+	out := make([]string, 0, len(reservedHeaders))
+	for k := range reservedHeaders {
+		out = append(out, k)
+	}
+	return out
+}
